@@ -11,4 +11,1411 @@ structure Fixed (cfg : Cfg) : Prop where
   notFound : cfg.notFoundIsUncommitted = true
   delDid : cfg.rollbackDeletesCreatedDID = true
 
+/-! ### generic list facts -/
+
+theorem eq_of_nodup_map {α β} (f : α → β) : ∀ (l : List α), (l.map f).Nodup → ∀ a ∈ l, ∀ b ∈ l, f a = f b → a = b
+  | [], _, a, ha, _, _, _ => by cases ha
+  | x :: xs, h, a, ha, b, hb, hab => by
+    simp only [List.map_cons, List.nodup_cons, List.mem_map, not_exists, not_and] at h
+    rcases List.mem_cons.1 ha with rfl | ha'
+    · rcases List.mem_cons.1 hb with rfl | hb'
+      · rfl
+      · exact absurd hab.symm (h.1 b hb')
+    · rcases List.mem_cons.1 hb with rfl | hb'
+      · exact absurd hab (h.1 a ha')
+      · exact eq_of_nodup_map f xs h.2 a ha' b hb' hab
+
+theorem map_filter_eq_filterMap {α β} (f : α → β) (p : β → Bool) (g : α → Option β) :
+    ∀ (l : List α), (∀ a ∈ l, g a = if p (f a) then some (f a) else none) → (l.map f).filter p = l.filterMap g
+  | [], _ => rfl
+  | x :: xs, h => by
+    have hx := h x (List.mem_cons_self ..)
+    have ih := map_filter_eq_filterMap f p g xs (fun a ha => h a (List.mem_cons_of_mem _ ha))
+    simp only [List.map_cons, List.filter_cons, List.filterMap_cons, hx]
+    by_cases hp : p (f x) = true
+    · simp [hp, ih]
+    · simp [hp, ih]
+
+theorem map_eq_filterMap {α β} (f : α → β) (g : α → Option β) :
+    ∀ (l : List α), (∀ a ∈ l, g a = some (f a)) → l.map f = l.filterMap g
+  | [], _ => rfl
+  | x :: xs, h => by
+    have hx := h x (List.mem_cons_self ..)
+    have ih := map_eq_filterMap f g xs (fun a ha => h a (List.mem_cons_of_mem _ ha))
+    simp [List.filterMap_cons, hx, ih]
+
+/-! ### the invariant -/
+
+/-- version numbers of a DID are `n-1, …, 1, 0` (newest first) -/
+def Consec : List Ver → Prop
+  | [] => True
+  | v :: vs => v.n = vs.length ∧ Consec vs
+
+/-- what the versions of all DIDs of one subject have in common -/
+def sig (r : DidRow) : List (Nat × Nat × List String × Option Pending) :=
+  r.vers.map (fun v => (v.n, v.ts, v.c.svcs, v.pending))
+
+structure Inv (dids : List DidRow) (next : Nat) : Prop where
+  idLt : ∀ r ∈ dids, r.id < next
+  rowLt : ∀ r ∈ dids, ∀ v ∈ r.vers, v.row < next
+  txLt : ∀ r ∈ dids, ∀ v ∈ r.vers, ∀ p, v.pending = some p → p.tx < next
+  idsNodup : (dids.map (·.id)).Nodup
+  rowsNodup : ∀ r ∈ dids, (r.vers.map (·.row)).Nodup
+  uniform : ∀ r ∈ dids, ∀ r' ∈ dids, r.subject = r'.subject → sig r = sig r'
+  consec : ∀ r ∈ dids, Consec r.vers
+  topOnly : ∀ r ∈ dids, ∀ v ∈ r.vers.tail, v.pending = none
+  noOrphan : ∀ r ∈ dids, r.vers ≠ []
+  createdIff : ∀ r ∈ dids, ∀ v vs p, r.vers = v :: vs → v.pending = some p → (p.typ = .created ↔ vs = [])
+  oneMethod : ∀ r ∈ dids, ∀ r' ∈ dids, r.subject = r'.subject → r.method = r'.method → r.id = r'.id
+
+/-- no change record of the subject is left -/
+def Clean (dids : List DidRow) (s : String) : Prop :=
+  ∀ r ∈ dids, r.subject = s → ∀ v ∈ r.vers, v.pending = none
+
+theorem inv_mono {dids next next'} (h : Inv dids next) (hn : next ≤ next') : Inv dids next' :=
+  { h with
+    idLt := fun r hr => Nat.lt_of_lt_of_le (h.idLt r hr) hn
+    rowLt := fun r hr v hv => Nat.lt_of_lt_of_le (h.rowLt r hr v hv) hn
+    txLt := fun r hr v hv p hp => Nat.lt_of_lt_of_le (h.txLt r hr v hv p hp) hn }
+
+theorem inv_nil (n : Nat) : Inv [] n := by
+  constructor <;> simp
+
+
+/-! ### a row-wise transformation that keeps id / subject / method preserves the invariant if it does so row by row -/
+
+theorem nodup_map_filterMap (F : DidRow → Option DidRow) :
+    ∀ (l : List DidRow), (∀ r ∈ l, ∀ r', F r = some r' → r'.id = r.id) → (l.map (·.id)).Nodup →
+      ((l.filterMap F).map (·.id)).Nodup
+  | [], _, _ => by simp
+  | x :: xs, hid, hn => by
+    simp only [List.map_cons, List.nodup_cons] at hn
+    have ih := nodup_map_filterMap F xs (fun r hr => hid r (List.mem_cons_of_mem _ hr)) hn.2
+    cases hx : F x with
+    | none => simpa [List.filterMap_cons, hx] using ih
+    | some x' =>
+      simp only [List.filterMap_cons, hx, List.map_cons, List.nodup_cons]
+      refine ⟨?_, ih⟩
+      intro hmem
+      rcases List.mem_map.1 hmem with ⟨y', hy', hyid⟩
+      rcases List.mem_filterMap.1 hy' with ⟨y, hy, hFy⟩
+      have h1 := hid y (List.mem_cons_of_mem _ hy) y' hFy
+      have h2 := hid x (List.mem_cons_self ..) x' hx
+      exact hn.1 (List.mem_map.2 ⟨y, hy, by rw [← h1, hyid, h2]⟩)
+
+theorem inv_filterMap {dids : List DidRow} {n n' : Nat} (F : DidRow → Option DidRow) (h : Inv dids n) (hn : n ≤ n')
+    (hid : ∀ r ∈ dids, ∀ r', F r = some r' → r'.id = r.id ∧ r'.subject = r.subject ∧ r'.method = r.method)
+    (hrow : ∀ r ∈ dids, ∀ r', F r = some r' → ∀ v ∈ r'.vers, v.row < n')
+    (htx : ∀ r ∈ dids, ∀ r', F r = some r' → ∀ v ∈ r'.vers, ∀ p, v.pending = some p → p.tx < n')
+    (hnd : ∀ r ∈ dids, ∀ r', F r = some r' → (r'.vers.map (·.row)).Nodup)
+    (hsig : ∀ r ∈ dids, ∀ r2 ∈ dids, r.subject = r2.subject → ∀ r' r2', F r = some r' → F r2 = some r2' → sig r' = sig r2')
+    (hcon : ∀ r ∈ dids, ∀ r', F r = some r' → Consec r'.vers)
+    (htop : ∀ r ∈ dids, ∀ r', F r = some r' → ∀ v ∈ r'.vers.tail, v.pending = none)
+    (horph : ∀ r ∈ dids, ∀ r', F r = some r' → r'.vers ≠ [])
+    (hcb : ∀ r ∈ dids, ∀ r', F r = some r' → ∀ v vs p, r'.vers = v :: vs → v.pending = some p → (p.typ = .created ↔ vs = [])) :
+    Inv (dids.filterMap F) n' := by
+  have mem : ∀ r' ∈ dids.filterMap F, ∃ r ∈ dids, F r = some r' := fun r' hr' => List.mem_filterMap.1 hr'
+  refine
+    { idLt := ?_, rowLt := ?_, txLt := ?_, idsNodup := ?_, rowsNodup := ?_, uniform := ?_, consec := ?_, topOnly := ?_,
+      noOrphan := ?_, createdIff := ?_, oneMethod := ?_ }
+  · intro r' hr'
+    rcases mem r' hr' with ⟨r, hr, hF⟩
+    rw [(hid r hr r' hF).1]
+    exact Nat.lt_of_lt_of_le (h.idLt r hr) hn
+  · intro r' hr'
+    rcases mem r' hr' with ⟨r, hr, hF⟩
+    exact hrow r hr r' hF
+  · intro r' hr'
+    rcases mem r' hr' with ⟨r, hr, hF⟩
+    exact htx r hr r' hF
+  · exact nodup_map_filterMap F dids (fun r hr r' hF => (hid r hr r' hF).1) h.idsNodup
+  · intro r' hr'
+    rcases mem r' hr' with ⟨r, hr, hF⟩
+    exact hnd r hr r' hF
+  · intro r' hr' r2' hr2' hs
+    rcases mem r' hr' with ⟨r, hr, hF⟩
+    rcases mem r2' hr2' with ⟨r2, hr2, hF2⟩
+    refine hsig r hr r2 hr2 ?_ r' r2' hF hF2
+    rw [← (hid r hr r' hF).2.1, ← (hid r2 hr2 r2' hF2).2.1, hs]
+  · intro r' hr'
+    rcases mem r' hr' with ⟨r, hr, hF⟩
+    exact hcon r hr r' hF
+  · intro r' hr'
+    rcases mem r' hr' with ⟨r, hr, hF⟩
+    exact htop r hr r' hF
+  · intro r' hr'
+    rcases mem r' hr' with ⟨r, hr, hF⟩
+    exact horph r hr r' hF
+  · intro r' hr'
+    rcases mem r' hr' with ⟨r, hr, hF⟩
+    exact hcb r hr r' hF
+  · intro r' hr' r2' hr2' hs hm
+    rcases mem r' hr' with ⟨r, hr, hF⟩
+    rcases mem r2' hr2' with ⟨r2, hr2, hF2⟩
+    have a := hid r hr r' hF
+    have b := hid r2 hr2 r2' hF2
+    rw [a.1, b.1]
+    exact h.oneMethod r hr r2 hr2 (by rw [← a.2.1, ← b.2.1, hs]) (by rw [← a.2.2, ← b.2.2, hm])
+
+/-! ### deleteLogTx -/
+
+def clearRow (t : Nat) (r : DidRow) : DidRow := { r with vers := r.vers.map (clearTx t) }
+
+theorem deleteLogTx_dids (t : Nat) (w : World) : (deleteLogTx t w).dids = w.dids.map (clearRow t) := rfl
+
+theorem clearTx_row (t : Nat) (v : Ver) : (clearTx t v).row = v.row := by
+  unfold clearTx; split
+  · split <;> rfl
+  · rfl
+theorem clearTx_n (t : Nat) (v : Ver) : (clearTx t v).n = v.n := by
+  unfold clearTx; split
+  · split <;> rfl
+  · rfl
+theorem clearTx_ts (t : Nat) (v : Ver) : (clearTx t v).ts = v.ts := by
+  unfold clearTx; split
+  · split <;> rfl
+  · rfl
+theorem clearTx_c (t : Nat) (v : Ver) : (clearTx t v).c = v.c := by
+  unfold clearTx; split
+  · split <;> rfl
+  · rfl
+
+def clearP (t : Nat) (p : Option Pending) : Option Pending :=
+  match p with
+  | some q => if q.tx = t then none else some q
+  | none => none
+
+theorem clearTx_pending (t : Nat) (v : Ver) : (clearTx t v).pending = clearP t v.pending := by
+  unfold clearTx clearP
+  split
+  · rename_i p hp
+    rw [hp]
+    split <;> simp_all
+  · rename_i hp
+    rw [hp]
+
+theorem clearP_some {t : Nat} {p : Option Pending} {q : Pending} (h : clearP t p = some q) : p = some q ∧ q.tx ≠ t := by
+  unfold clearP at h
+  split at h
+  · split at h
+    · cases h
+    · rename_i hne; cases h; exact ⟨rfl, hne⟩
+  · cases h
+
+theorem clearP_none (t : Nat) : clearP t none = none := rfl
+
+theorem consec_clear (t : Nat) : ∀ vs : List Ver, Consec vs → Consec (vs.map (clearTx t))
+  | [], _ => trivial
+  | v :: vs, h => by
+    simp only [List.map_cons, Consec, clearTx_n, List.length_map]
+    exact ⟨h.1, consec_clear t vs h.2⟩
+
+theorem sig_clearRow (t : Nat) (r : DidRow) :
+    sig (clearRow t r) = (sig r).map (fun x => (x.1, x.2.1, x.2.2.1, clearP t x.2.2.2)) := by
+  simp only [sig, clearRow, List.map_map]
+  apply List.map_congr_left
+  intro v _
+  simp [clearTx_n, clearTx_ts, clearTx_c, clearTx_pending]
+
+theorem inv_clear {dids : List DidRow} {n : Nat} (t : Nat) (h : Inv dids n) : Inv (dids.map (clearRow t)) n := by
+  rw [map_eq_filterMap (clearRow t) (fun r => some (clearRow t r)) dids (fun _ _ => rfl)]
+  apply inv_filterMap _ h (Nat.le_refl _)
+  · intro r _ r' hF; cases hF; exact ⟨rfl, rfl, rfl⟩
+  · intro r hr r' hF v hv; cases hF
+    rcases List.mem_map.1 hv with ⟨u, hu, rfl⟩
+    rw [clearTx_row]; exact h.rowLt r hr u hu
+  · intro r hr r' hF v hv p hp; cases hF
+    rcases List.mem_map.1 hv with ⟨u, hu, rfl⟩
+    rw [clearTx_pending] at hp
+    exact h.txLt r hr u hu p (clearP_some hp).1
+  · intro r hr r' hF; cases hF
+    have : (clearRow t r).vers.map (·.row) = r.vers.map (·.row) := by
+      simp only [clearRow, List.map_map]
+      apply List.map_congr_left; intro v _; simp [clearTx_row]
+    rw [this]; exact h.rowsNodup r hr
+  · intro r hr r2 hr2 hs r' r2' hF hF2; cases hF; cases hF2
+    rw [sig_clearRow, sig_clearRow, h.uniform r hr r2 hr2 hs]
+  · intro r hr r' hF; cases hF
+    exact consec_clear t _ (h.consec r hr)
+  · intro r hr r' hF v hv; cases hF
+    simp only [clearRow, ← List.map_tail] at hv
+    rcases List.mem_map.1 hv with ⟨u, hu, rfl⟩
+    rw [clearTx_pending, h.topOnly r hr u hu]; rfl
+  · intro r hr r' hF; cases hF
+    simp only [clearRow, ne_eq, List.map_eq_nil_iff]
+    exact h.noOrphan r hr
+  · intro r hr r' hF v vs p hv hp; cases hF
+    simp only [clearRow] at hv
+    cases hvs : r.vers with
+    | nil => rw [hvs] at hv; cases hv
+    | cons u us =>
+      rw [hvs] at hv
+      simp only [List.map_cons, List.cons.injEq] at hv
+      rcases hv with ⟨rfl, rfl⟩
+      rw [clearTx_pending] at hp
+      rw [h.createdIff r hr u us p hvs (clearP_some hp).1]
+      simp
+
+/-! ### deleting the (pending) head version of selected rows -/
+
+def dropHead (cfg : Cfg) (r : DidRow) : Option DidRow :=
+  match r.vers with
+  | v :: vs =>
+    if cfg.rollbackDeletesCreatedDID = true ∧ v.pending.map (·.typ) = some .created then none
+    else some { r with vers := vs }
+  | [] => some r
+
+def dropSel (cfg : Cfg) (sel : DidRow → Bool) (r : DidRow) : Option DidRow :=
+  if sel r = true then dropHead cfg r else some r
+
+theorem dropSel_some {cfg : Cfg} {sel : DidRow → Bool} {r r' : DidRow} (h : dropSel cfg sel r = some r')
+    (hp : sel r = true → ∃ v vs p, r.vers = v :: vs ∧ v.pending = some p) :
+    (sel r = false ∧ r = r') ∨
+    (sel r = true ∧ ∃ v vs p, r.vers = v :: vs ∧ v.pending = some p ∧ r' = { r with vers := vs } ∧
+      ¬ (cfg.rollbackDeletesCreatedDID = true ∧ p.typ = .created)) := by
+  unfold dropSel at h
+  by_cases hs : sel r = true
+  · rw [if_pos hs] at h
+    rcases hp hs with ⟨v, vs, p, hv, hpv⟩
+    refine Or.inr ⟨hs, v, vs, p, hv, hpv, ?_⟩
+    unfold dropHead at h
+    rw [hv] at h
+    simp only [hpv, Option.map_some, Option.some.injEq] at h
+    split at h
+    · cases h
+    · rename_i hc
+      cases h
+      exact ⟨rfl, hc⟩
+  · rw [if_neg hs] at h
+    cases h
+    exact Or.inl ⟨by simpa using hs, rfl⟩
+
+theorem inv_dropSel {cfg : Cfg} {dids : List DidRow} {n : Nat} (sel : DidRow → Bool) (hfix : Fixed cfg) (h : Inv dids n)
+    (hsel : ∀ r ∈ dids, ∀ r2 ∈ dids, r.subject = r2.subject → sel r = sel r2)
+    (hpend : ∀ r ∈ dids, sel r = true → ∃ v vs p, r.vers = v :: vs ∧ v.pending = some p) :
+    Inv (dids.filterMap (dropSel cfg sel)) n := by
+  apply inv_filterMap _ h (Nat.le_refl _)
+  · intro r hr r' hF
+    rcases dropSel_some hF (hpend r hr) with ⟨_, rfl⟩ | ⟨_, v, vs, p, _, _, rfl, _⟩ <;> exact ⟨rfl, rfl, rfl⟩
+  · intro r hr r' hF u hu
+    rcases dropSel_some hF (hpend r hr) with ⟨_, rfl⟩ | ⟨_, v, vs, p, hv, _, rfl, _⟩
+    · exact h.rowLt r hr u hu
+    · exact h.rowLt r hr u (by rw [hv]; exact List.mem_cons_of_mem _ hu)
+  · intro r hr r' hF u hu q hq
+    rcases dropSel_some hF (hpend r hr) with ⟨_, rfl⟩ | ⟨_, v, vs, p, hv, _, rfl, _⟩
+    · exact h.txLt r hr u hu q hq
+    · exact h.txLt r hr u (by rw [hv]; exact List.mem_cons_of_mem _ hu) q hq
+  · intro r hr r' hF
+    rcases dropSel_some hF (hpend r hr) with ⟨_, rfl⟩ | ⟨_, v, vs, p, hv, _, rfl, _⟩
+    · exact h.rowsNodup r hr
+    · have := h.rowsNodup r hr
+      rw [hv, List.map_cons, List.nodup_cons] at this
+      exact this.2
+  · intro r hr r2 hr2 hs r' r2' hF hF2
+    have hu := h.uniform r hr r2 hr2 hs
+    have hse := hsel r hr r2 hr2 hs
+    rcases dropSel_some hF (hpend r hr) with ⟨h1, rfl⟩ | ⟨h1, v, vs, p, hv, _, rfl, _⟩
+    · rcases dropSel_some hF2 (hpend r2 hr2) with ⟨_, rfl⟩ | ⟨h2, _⟩
+      · exact hu
+      · rw [hse, h2] at h1; cases h1
+    · rcases dropSel_some hF2 (hpend r2 hr2) with ⟨h2, _⟩ | ⟨_, v2, vs2, p2, hv2, _, rfl, _⟩
+      · rw [hse, h2] at h1; cases h1
+      · simp only [sig, hv, hv2, List.map_cons, List.cons.injEq] at hu
+        exact hu.2
+  · intro r hr r' hF
+    rcases dropSel_some hF (hpend r hr) with ⟨_, rfl⟩ | ⟨_, v, vs, p, hv, _, rfl, _⟩
+    · exact h.consec r hr
+    · have := h.consec r hr
+      rw [hv] at this
+      exact this.2
+  · intro r hr r' hF u hu
+    rcases dropSel_some hF (hpend r hr) with ⟨_, rfl⟩ | ⟨_, v, vs, p, hv, _, rfl, _⟩
+    · exact h.topOnly r hr u hu
+    · exact h.topOnly r hr u (by rw [hv]; exact List.mem_of_mem_tail hu)
+  · intro r hr r' hF
+    rcases dropSel_some hF (hpend r hr) with ⟨_, rfl⟩ | ⟨_, v, vs, p, hv, hpv, rfl, hnc⟩
+    · exact h.noOrphan r hr
+    · intro hnil
+      simp only at hnil
+      rw [hnil] at hv
+      exact hnc ⟨hfix.delDid, (h.createdIff r hr v [] p hv hpv).2 rfl⟩
+  · intro r hr r' hF u us q hu hq
+    rcases dropSel_some hF (hpend r hr) with ⟨_, rfl⟩ | ⟨_, v, vs, p, hv, _, rfl, _⟩
+    · exact h.createdIff r hr u us q hu hq
+    · simp only at hu
+      have : u.pending = none := h.topOnly r hr u (by rw [hv, hu]; exact List.mem_cons_self ..)
+      rw [this] at hq; cases hq
+
+/-! ### tx1 of an update: pushing one pending version on every DID of the subject -/
+
+/-- `rowOp` seen through the services only -/
+def rowOpS (o : Op) (cur : Option (List String)) : Option (List String) :=
+  match o, cur with
+  | .deactivate _, _ => some []
+  | .addSvc _ s, some c => if c.contains s then none else some (c ++ [s])
+  | .updSvc _ old new, some c => some (c.filter (· != old) ++ [new])
+  | .delSvc _ s, some c => some (c.filter (· != s))
+  | .addKey _, some c => some c
+  | _, _ => none
+
+theorem rowOp_svcs (o : Op) (k : Nat) (cur : Option Content) :
+    (rowOp o k cur).map (·.svcs) = rowOpS o (cur.map (·.svcs)) := by
+  cases o <;> cases cur <;> simp [rowOp, rowOpS, Content.empty]
+  all_goals (split <;> simp)
+
+def nextVersionS (sg : List (Nat × Nat × List String × Option Pending)) : Nat :=
+  match sg with
+  | [] => 0
+  | x :: _ => x.1 + 1
+
+def pushSig (o : Op) (base now : Nat) (sg : List (Nat × Nat × List String × Option Pending)) :
+    List (Nat × Nat × List String × Option Pending) :=
+  match rowOpS o (sg.head?.map (·.2.2.1)) with
+  | some svcs => (nextVersionS sg, now, svcs, some { typ := o.chType, tx := base }) :: sg
+  | none => sg
+
+theorem sig_pushRow (o : Op) (base now : Nat) (r : DidRow) (hs : r.subject = o.subject) :
+    sig (pushRow o base now r) = pushSig o base now (sig r) := by
+  have h1 := rowOp_svcs o (base + r.id) (r.vers.head?.map (·.c))
+  have h2 : (sig r).head?.map (·.2.2.1) = (r.vers.head?.map (·.c)).map (·.svcs) := by
+    unfold sig; cases r.vers <;> simp
+  have h3 : nextVersionS (sig r) = nextVersion r.vers := by
+    unfold sig nextVersionS nextVersion; cases r.vers <;> simp
+  unfold pushRow pushSig newContent
+  rw [if_pos hs, h2, ← h1, h3]
+  cases rowOp o (base + r.id) (r.vers.head?.map (·.c)) with
+  | none => rfl
+  | some c => simp [sig]
+
+theorem rowOp_some_not_create {o : Op} {k : Nat} {cur : Option Content} {c : Content} (h : rowOp o k cur = some c) :
+    o.chType ≠ .created := by
+  cases o <;> cases cur <;> simp [rowOp, Op.chType] at h ⊢
+
+theorem pushRow_cases (o : Op) (base now : Nat) (r : DidRow) :
+    pushRow o base now r = r ∨
+    (r.subject = o.subject ∧ o.chType ≠ .created ∧ ∃ c, pushRow o base now r =
+      { r with vers := { row := base + r.id, n := nextVersion r.vers, ts := now, c := c,
+                         pending := some { typ := o.chType, tx := base } } :: r.vers }) := by
+  unfold pushRow newContent
+  by_cases hs : r.subject = o.subject
+  · rw [if_pos hs]
+    cases hro : rowOp o (base + r.id) (r.vers.head?.map (·.c)) with
+    | none => exact Or.inl rfl
+    | some c => exact Or.inr ⟨hs, rowOp_some_not_create hro, c, rfl⟩
+  · rw [if_neg hs]; exact Or.inl rfl
+
+theorem nextVersion_consec : ∀ vs : List Ver, Consec vs → nextVersion vs = vs.length
+  | [], _ => rfl
+  | v :: vs, h => by simp [nextVersion, h.1]
+
+theorem inv_push {dids : List DidRow} {n : Nat} (o : Op) (now : Nat) (h : Inv dids n) (hc : Clean dids o.subject) :
+    Inv (dids.map (pushRow o n now)) (2 * n + 2) := by
+  rw [map_eq_filterMap (pushRow o n now) (fun r => some (pushRow o n now r)) dids (fun _ _ => rfl)]
+  apply inv_filterMap _ h (by omega)
+  · intro r _ r' hF; cases hF
+    rcases pushRow_cases o n now r with he | ⟨_, hct, c, he⟩ <;> rw [he] <;> exact ⟨rfl, rfl, rfl⟩
+  · intro r hr r' hF u hu; cases hF
+    rcases pushRow_cases o n now r with he | ⟨_, hct, c, he⟩ <;> rw [he] at hu
+    · have := h.rowLt r hr u hu; omega
+    · rcases List.mem_cons.1 hu with rfl | hu'
+      · have := h.idLt r hr; simp only; omega
+      · have := h.rowLt r hr u hu'; omega
+  · intro r hr r' hF u hu q hq; cases hF
+    rcases pushRow_cases o n now r with he | ⟨_, hct, c, he⟩ <;> rw [he] at hu
+    · have := h.txLt r hr u hu q hq; omega
+    · rcases List.mem_cons.1 hu with rfl | hu'
+      · simp only [Option.some.injEq] at hq
+        subst hq; simp only; omega
+      · have := h.txLt r hr u hu' q hq; omega
+  · intro r hr r' hF; cases hF
+    rcases pushRow_cases o n now r with he | ⟨_, hct, c, he⟩ <;> rw [he]
+    · exact h.rowsNodup r hr
+    · simp only [List.map_cons, List.nodup_cons]
+      refine ⟨?_, h.rowsNodup r hr⟩
+      intro hm
+      rcases List.mem_map.1 hm with ⟨u, hu, hue⟩
+      have := h.rowLt r hr u hu
+      omega
+  · intro r hr r2 hr2 hs r' r2' hF hF2; cases hF; cases hF2
+    by_cases hso : r.subject = o.subject
+    · rw [sig_pushRow o n now r hso, sig_pushRow o n now r2 (hs ▸ hso), h.uniform r hr r2 hr2 hs]
+    · have e1 : pushRow o n now r = r := by
+        rcases pushRow_cases o n now r with he | ⟨hh, _⟩
+        · exact he
+        · exact absurd hh hso
+      have e2 : pushRow o n now r2 = r2 := by
+        rcases pushRow_cases o n now r2 with he | ⟨hh, _⟩
+        · exact he
+        · exact absurd (hs ▸ hh) hso
+      rw [e1, e2]; exact h.uniform r hr r2 hr2 hs
+  · intro r hr r' hF; cases hF
+    rcases pushRow_cases o n now r with he | ⟨_, hct, c, he⟩ <;> rw [he]
+    · exact h.consec r hr
+    · exact ⟨nextVersion_consec _ (h.consec r hr), h.consec r hr⟩
+  · intro r hr r' hF u hu; cases hF
+    rcases pushRow_cases o n now r with he | ⟨hso, _, c, he⟩ <;> rw [he] at hu
+    · exact h.topOnly r hr u hu
+    · exact hc r hr hso u hu
+  · intro r hr r' hF; cases hF
+    rcases pushRow_cases o n now r with he | ⟨_, hct, c, he⟩ <;> rw [he]
+    · exact h.noOrphan r hr
+    · simp
+  · intro r hr r' hF u us q hu hq; cases hF
+    rcases pushRow_cases o n now r with he | ⟨_, hct, c, he⟩ <;> rw [he] at hu
+    · exact h.createdIff r hr u us q hu hq
+    · simp only [List.cons.injEq] at hu
+      rcases hu with ⟨rfl, rfl⟩
+      simp only [Option.some.injEq] at hq
+      subst hq
+      have hne := h.noOrphan r hr
+      simp [hct, hne]
+
+/-! ### tx1 of a create -/
+
+theorem idx_inj {a b : Method} (h : a.idx = b.idx) : a = b := by
+  cases a <;> cases b <;> simp [Method.idx] at h <;> rfl
+
+theorem idx_le (m : Method) : m.idx ≤ 1 := by cases m <;> simp [Method.idx]
+
+theorem nodup_newDids (n now : Nat) (s : String) : ∀ ms : List Method, ms.Nodup →
+    ((ms.map (newDid n now s)).map (·.id)).Nodup
+  | [], _ => by simp
+  | m :: ms, h => by
+    simp only [List.nodup_cons] at h
+    simp only [List.map_cons, List.nodup_cons]
+    refine ⟨?_, nodup_newDids n now s ms h.2⟩
+    intro hm
+    rcases List.mem_map.1 hm with ⟨r, hr, hid⟩
+    rcases List.mem_map.1 hr with ⟨m', hm', rfl⟩
+    simp only [newDid] at hid
+    have : m' = m := idx_inj (by omega)
+    exact h.1 (this ▸ hm')
+
+theorem inv_create {dids : List DidRow} {n : Nat} (ms : List Method) (now : Nat) (s : String) (h : Inv dids n)
+    (hms : ms.Nodup) (hnew : ∀ r ∈ dids, r.subject ≠ s) :
+    Inv (dids ++ ms.map (newDid n now s)) (2 * n + 2) := by
+  have h' : Inv dids (2 * n + 2) := inv_mono h (by omega)
+  have memNew : ∀ r ∈ ms.map (newDid n now s), ∃ m ∈ ms, r = newDid n now s m := by
+    intro r hr; rcases List.mem_map.1 hr with ⟨m, hm, rfl⟩; exact ⟨m, hm, rfl⟩
+  refine
+    { idLt := ?_, rowLt := ?_, txLt := ?_, idsNodup := ?_, rowsNodup := ?_, uniform := ?_, consec := ?_, topOnly := ?_,
+      noOrphan := ?_, createdIff := ?_, oneMethod := ?_ }
+  · intro r hr
+    rcases List.mem_append.1 hr with ho | hn
+    · exact h'.idLt r ho
+    · rcases memNew r hn with ⟨m, _, rfl⟩
+      have := idx_le m; simp only [newDid]; omega
+  · intro r hr v hv
+    rcases List.mem_append.1 hr with ho | hn
+    · exact h'.rowLt r ho v hv
+    · rcases memNew r hn with ⟨m, _, rfl⟩
+      simp only [newDid, List.mem_singleton] at hv
+      subst hv
+      have := idx_le m; simp only; omega
+  · intro r hr v hv p hp
+    rcases List.mem_append.1 hr with ho | hn
+    · exact h'.txLt r ho v hv p hp
+    · rcases memNew r hn with ⟨m, _, rfl⟩
+      simp only [newDid, List.mem_singleton] at hv
+      subst hv
+      simp only [Option.some.injEq] at hp
+      subst hp; simp only; omega
+  · rw [List.map_append, List.nodup_append]
+    refine ⟨h.idsNodup, nodup_newDids n now s ms hms, ?_⟩
+    intro a ha b hb
+    rcases List.mem_map.1 ha with ⟨r, hr, rfl⟩
+    rcases List.mem_map.1 hb with ⟨r2, hr2, rfl⟩
+    rcases memNew r2 hr2 with ⟨m, _, rfl⟩
+    have := h.idLt r hr
+    simp only [newDid]; omega
+  · intro r hr
+    rcases List.mem_append.1 hr with ho | hn
+    · exact h.rowsNodup r ho
+    · rcases memNew r hn with ⟨m, _, rfl⟩
+      simp [newDid]
+  · intro r hr r2 hr2 hs
+    rcases List.mem_append.1 hr with ho | hn
+    · rcases List.mem_append.1 hr2 with ho2 | hn2
+      · exact h.uniform r ho r2 ho2 hs
+      · rcases memNew r2 hn2 with ⟨m, _, rfl⟩
+        exact absurd hs (hnew r ho)
+    · rcases memNew r hn with ⟨m, _, rfl⟩
+      rcases List.mem_append.1 hr2 with ho2 | hn2
+      · exact absurd hs.symm (hnew r2 ho2)
+      · rcases memNew r2 hn2 with ⟨m2, _, rfl⟩
+        simp [sig, newDid]
+  · intro r hr
+    rcases List.mem_append.1 hr with ho | hn
+    · exact h.consec r ho
+    · rcases memNew r hn with ⟨m, _, rfl⟩
+      simp [newDid, Consec, nextVersion]
+  · intro r hr v hv
+    rcases List.mem_append.1 hr with ho | hn
+    · exact h.topOnly r ho v hv
+    · rcases memNew r hn with ⟨m, _, rfl⟩
+      simp [newDid] at hv
+  · intro r hr
+    rcases List.mem_append.1 hr with ho | hn
+    · exact h.noOrphan r ho
+    · rcases memNew r hn with ⟨m, _, rfl⟩
+      simp [newDid]
+  · intro r hr v vs p hv hp
+    rcases List.mem_append.1 hr with ho | hn
+    · exact h.createdIff r ho v vs p hv hp
+    · rcases memNew r hn with ⟨m, _, rfl⟩
+      simp only [newDid, List.cons.injEq] at hv
+      rcases hv with ⟨rfl, rfl⟩
+      simp only [Option.some.injEq] at hp
+      subst hp; simp
+  · intro r hr r2 hr2 hs hm
+    rcases List.mem_append.1 hr with ho | hn
+    · rcases List.mem_append.1 hr2 with ho2 | hn2
+      · exact h.oneMethod r ho r2 ho2 hs hm
+      · rcases memNew r2 hn2 with ⟨m, _, rfl⟩
+        exact absurd hs (hnew r ho)
+    · rcases memNew r hn with ⟨m, _, rfl⟩
+      rcases List.mem_append.1 hr2 with ho2 | hn2
+      · exact absurd hs.symm (hnew r2 ho2)
+      · rcases memNew r2 hn2 with ⟨m2, _, rfl⟩
+        simp only [newDid] at hm
+        subst hm; rfl
+
+/-! ### `deleteChanges` row by row -/
+
+/-- `chs` are exactly the changes of the (pending) head versions of the rows selected by `sel` -/
+structure GroupOf (sel : DidRow → Bool) (chs : List Change) (dids : List DidRow) : Prop where
+  sound : ∀ ch ∈ chs, ∃ r ∈ dids, sel r = true ∧ ch.did = r.id ∧
+    ∃ v vs p, r.vers = v :: vs ∧ v.pending = some p ∧ ch.row = v.row ∧ ch.typ = p.typ
+  complete : ∀ r ∈ dids, sel r = true → ∃ ch ∈ chs, ch.did = r.id ∧
+    ∃ v vs p, r.vers = v :: vs ∧ v.pending = some p ∧ ch.row = v.row ∧ ch.typ = p.typ
+
+theorem GroupOf.pending {sel chs dids} (g : GroupOf sel chs dids) :
+    ∀ r ∈ dids, sel r = true → ∃ v vs p, r.vers = v :: vs ∧ v.pending = some p := by
+  intro r hr hs
+  rcases g.complete r hr hs with ⟨_, _, _, v, vs, p, hv, hp, _⟩
+  exact ⟨v, vs, p, hv, hp⟩
+
+theorem dropRow_eq {cfg : Cfg} {sel chs dids n} (h : Inv dids n) (g : GroupOf sel chs dids) (r : DidRow) (hr : r ∈ dids) :
+    (sel r = false → dropVersions chs r = r ∧ createdIn chs r = false) ∧
+    (sel r = true → ∃ v vs p, r.vers = v :: vs ∧ v.pending = some p ∧ dropVersions chs r = { r with vers := vs } ∧
+        (createdIn chs r = true ↔ p.typ = .created) ∧ createdIn chs { r with vers := vs } = createdIn chs r) := by
+  have uniq : ∀ r2 ∈ dids, r2.id = r.id → r2 = r := fun r2 hr2 he => eq_of_nodup_map (·.id) dids h.idsNodup r2 hr2 r hr he
+  constructor
+  · intro hs
+    have none : ∀ ch ∈ chs, ch.did ≠ r.id := by
+      intro ch hch he
+      rcases g.sound ch hch with ⟨r2, hr2, hs2, hid, _⟩
+      have := uniq r2 hr2 (by rw [← hid, he])
+      rw [this, hs] at hs2; cases hs2
+    constructor
+    · unfold dropVersions
+      have : r.vers.filter (fun v => !chs.any (fun ch => ch.did = r.id ∧ ch.row = v.row)) = r.vers := by
+        apply List.filter_eq_self.2
+        intro v _
+        simp only [Bool.not_eq_eq_eq_not, Bool.not_true, List.any_eq_false, decide_eq_true_eq, not_and]
+        intro ch hch he
+        exact absurd he (none ch hch)
+      rw [this]
+    · unfold createdIn
+      simp only [List.any_eq_false, decide_eq_true_eq, not_and]
+      intro ch hch _ he
+      exact none ch hch he
+  · intro hs
+    rcases g.complete r hr hs with ⟨ch0, hch0, hid0, v, vs, p, hv, hp, hrow0, htyp0⟩
+    have fromHead : ∀ ch ∈ chs, ch.did = r.id → ch.row = v.row ∧ ch.typ = p.typ := by
+      intro ch hch he
+      rcases g.sound ch hch with ⟨r2, hr2, _, hid, v2, vs2, p2, hv2, hp2, hrow, htyp⟩
+      have := uniq r2 hr2 (by rw [← hid, he])
+      subst this
+      rw [hv] at hv2
+      simp only [List.cons.injEq] at hv2
+      rcases hv2 with ⟨rfl, rfl⟩
+      rw [hp] at hp2; cases hp2
+      exact ⟨hrow, htyp⟩
+    have hnd := h.rowsNodup r hr
+    rw [hv, List.map_cons, List.nodup_cons] at hnd
+    refine ⟨v, vs, p, hv, hp, ?_, ?_, ?_⟩
+    · unfold dropVersions
+      rw [hv, List.filter_cons]
+      have hv' : (!chs.any (fun ch => decide (ch.did = r.id ∧ ch.row = v.row))) = false := by
+        simp only [Bool.not_eq_false', List.any_eq_true, decide_eq_true_eq]
+        exact ⟨ch0, hch0, hid0, hrow0⟩
+      rw [hv']
+      simp only [Bool.false_eq_true, ↓reduceIte]
+      have : vs.filter (fun u => !chs.any (fun ch => decide (ch.did = r.id ∧ ch.row = u.row))) = vs := by
+        apply List.filter_eq_self.2
+        intro u hu
+        simp only [Bool.not_eq_eq_eq_not, Bool.not_true, List.any_eq_false, decide_eq_true_eq, not_and]
+        intro ch hch he hrow
+        have := (fromHead ch hch he).1
+        exact hnd.1 (List.mem_map.2 ⟨u, hu, by rw [← hrow, this]⟩)
+      rw [this]
+    · unfold createdIn
+      simp only [List.any_eq_true, decide_eq_true_eq]
+      constructor
+      · rintro ⟨ch, hch, htyp, he⟩
+        rw [← (fromHead ch hch he).2]; exact htyp
+      · intro hc
+        exact ⟨ch0, hch0, by rw [htyp0]; exact hc, hid0⟩
+    · rfl
+
+theorem deleteChanges_dids {cfg : Cfg} {sel chs n} (w : World) (h : Inv w.dids n) (g : GroupOf sel chs w.dids) :
+    (deleteChanges cfg chs w).dids = w.dids.filterMap (dropSel cfg sel) := by
+  unfold deleteChanges
+  simp only
+  have rowFact := fun r hr => dropRow_eq (cfg := cfg) h g r hr
+  split
+  · rename_i hdel
+    apply map_filter_eq_filterMap
+    intro r hr
+    unfold dropSel
+    by_cases hs : sel r = true
+    · rcases (rowFact r hr).2 hs with ⟨v, vs, p, hv, hp, hd, hc, hc2⟩
+      rw [if_pos hs, hd, hc2]
+      unfold dropHead
+      rw [hv]
+      simp only [hp, Option.map_some, Option.some.injEq]
+      by_cases hcr : p.typ = .created
+      · rw [if_pos ⟨hdel, hcr⟩, hc.2 hcr]; rfl
+      · rw [if_neg (fun hh => hcr hh.2)]
+        have : createdIn chs r = false := by
+          cases hci : createdIn chs r
+          · rfl
+          · exact absurd (hc.1 hci) hcr
+        rw [this]; rfl
+    · have hs' : sel r = false := by simpa using hs
+      rcases (rowFact r hr).1 hs' with ⟨hd, hc⟩
+      rw [if_neg hs, hd, hc]; rfl
+  · rename_i hdel
+    apply map_eq_filterMap
+    intro r hr
+    unfold dropSel
+    by_cases hs : sel r = true
+    · rcases (rowFact r hr).2 hs with ⟨v, vs, p, hv, hp, hd, _, _⟩
+      rw [if_pos hs, hd]
+      unfold dropHead
+      rw [hv]
+      simp only
+      rw [if_neg (fun hh => hdel hh.1)]
+    · have hs' : sel r = false := by simpa using hs
+      rw [if_neg hs, ((rowFact r hr).1 hs').1]
+
+/-! ### tx1 -/
+
+def headTx (r : DidRow) : Option Nat := (r.vers.head?.bind (·.pending)).map (·.tx)
+
+def selTx (t : Nat) (r : DidRow) : Bool := headTx r == some t
+
+theorem headTx_of_sig {r r2 : DidRow} (h : sig r = sig r2) : headTx r = headTx r2 := by
+  unfold headTx
+  unfold sig at h
+  cases h1 : r.vers <;> cases h2 : r2.vers <;> rw [h1, h2] at h <;> simp at h ⊢
+  rw [h.1.2.2.2]
+
+theorem selTx_uniform {dids n} (h : Inv dids n) (t : Nat) :
+    ∀ r ∈ dids, ∀ r2 ∈ dids, r.subject = r2.subject → selTx t r = selTx t r2 := by
+  intro r hr r2 hr2 hs
+  unfold selTx
+  rw [headTx_of_sig (h.uniform r hr r2 hr2 hs)]
+
+theorem headTx_lt {dids n} (h : Inv dids n) (r : DidRow) (hr : r ∈ dids) (t : Nat) (ht : headTx r = some t) : t < n := by
+  unfold headTx at ht
+  cases hv : r.vers with
+  | nil => rw [hv] at ht; simp at ht
+  | cons v vs =>
+    rw [hv] at ht
+    simp only [List.head?_cons, Option.bind_some, Option.map_eq_some_iff] at ht
+    rcases ht with ⟨p, hp, rfl⟩
+    exact h.txLt r hr v (by rw [hv]; exact List.mem_cons_self ..) p hp
+
+theorem tx1_is_update (cfg : Cfg) (w : World) (o : Op) (h : ∀ s, o ≠ .create s) : tx1 cfg w o = tx1Update w o := by
+  cases o <;> first | rfl | exact absurd rfl (h _)
+
+theorem tx1Update_ok {w w1 : World} {o : Op} {chs : List Change} (h : tx1Update w o = .ok (w1, chs)) :
+    w1.dids = w.dids.map (pushRow o w.next w.now) ∧ w1.next = 2 * w.next + 2 ∧ w1.pub = w.pub ∧ w1.now = w.now ∧
+    chs = w.dids.filterMap (changeOf o w.next w.now) := by
+  unfold tx1Update at h
+  simp only at h
+  split at h
+  · cases h
+  · split at h
+    · cases h
+    · cases h
+      exact ⟨rfl, rfl, rfl, rfl, rfl⟩
+
+theorem tx1Create_ok {cfg : Cfg} {w w1 : World} {s : String} {chs : List Change} (h : tx1Create cfg w s = .ok (w1, chs)) :
+    w1.dids = w.dids ++ cfg.methods.map (newDid w.next w.now s) ∧ w1.next = 2 * w.next + 2 ∧ w1.pub = w.pub ∧
+    w1.now = w.now ∧ chs = cfg.methods.map (createdChange w.next w.now) ∧ (∀ r ∈ w.dids, r.subject ≠ s) := by
+  unfold tx1Create at h
+  split at h
+  · cases h
+  · rename_i hne
+    cases h
+    refine ⟨rfl, rfl, rfl, rfl, rfl, ?_⟩
+    intro r hr hs
+    apply hne
+    simp only [List.any_eq_true, decide_eq_true_eq]
+    exact ⟨r, hr, hs⟩
+
+theorem groupOf_push {dids : List DidRow} {n : Nat} (o : Op) (now : Nat) (h : Inv dids n) :
+    GroupOf (selTx n) (dids.filterMap (changeOf o n now)) (dids.map (pushRow o n now)) := by
+  constructor
+  · intro ch hch
+    rcases List.mem_filterMap.1 hch with ⟨r, hr, hc⟩
+    unfold changeOf at hc
+    cases hnc : newContent o n r with
+    | none => rw [hnc] at hc; cases hc
+    | some c =>
+      rw [hnc] at hc
+      simp only [Option.map_some, Option.some.injEq] at hc
+      subst hc
+      refine ⟨pushRow o n now r, List.mem_map.2 ⟨r, hr, rfl⟩, ?_, ?_, ?_⟩
+      · simp [selTx, headTx, pushRow, hnc]
+      · simp [pushRow, hnc]
+      · simp only [pushRow, hnc]
+        exact ⟨_, _, _, rfl, rfl, rfl, rfl⟩
+  · intro r' hr' hs
+    rcases List.mem_map.1 hr' with ⟨r, hr, rfl⟩
+    cases hnc : newContent o n r with
+    | none =>
+      have : pushRow o n now r = r := by simp [pushRow, hnc]
+      rw [this] at hs
+      simp only [selTx, beq_iff_eq] at hs
+      exact absurd (headTx_lt h r hr n hs) (Nat.lt_irrefl _)
+    | some c =>
+      refine ⟨{ did := r.id, method := r.method, row := n + r.id, typ := o.chType, tx := n, ts := now, c := c },
+        List.mem_filterMap.2 ⟨r, hr, by simp only [changeOf, hnc, Option.map_some]⟩, ?_, ?_⟩
+      · simp [pushRow, hnc]
+      · simp only [pushRow, hnc]
+        exact ⟨_, _, _, rfl, rfl, rfl, rfl⟩
+
+theorem groupOf_create {dids : List DidRow} {n : Nat} (ms : List Method) (now : Nat) (s : String) (h : Inv dids n) :
+    GroupOf (selTx n) (ms.map (createdChange n now)) (dids ++ ms.map (newDid n now s)) := by
+  constructor
+  · intro ch hch
+    rcases List.mem_map.1 hch with ⟨m, hm, rfl⟩
+    refine ⟨newDid n now s m, List.mem_append_right _ (List.mem_map.2 ⟨m, hm, rfl⟩), ?_, rfl, ?_⟩
+    · simp [selTx, headTx, newDid]
+    · exact ⟨_, _, _, rfl, rfl, rfl, rfl⟩
+  · intro r hr hs
+    rcases List.mem_append.1 hr with ho | hn
+    · simp only [selTx, beq_iff_eq] at hs
+      exact absurd (headTx_lt h r ho n hs) (Nat.lt_irrefl _)
+    · rcases List.mem_map.1 hn with ⟨m, hm, rfl⟩
+      exact ⟨createdChange n now m, List.mem_map.2 ⟨m, hm, rfl⟩, rfl, _, _, _, rfl, rfl, rfl, rfl⟩
+
+/-- everything the later steps need to know about a successful first transaction -/
+theorem tx1_ok {cfg : Cfg} {w w1 : World} {o : Op} {chs : List Change} (hms : cfg.methods.Nodup)
+    (h : Inv w.dids w.next) (hc : Clean w.dids o.subject) (ht : tx1 cfg w o = .ok (w1, chs)) :
+    Inv w1.dids w1.next ∧ GroupOf (selTx w.next) chs w1.dids ∧ (∀ ch ∈ chs, ch.tx = w.next) ∧
+    w1.pub = w.pub ∧ w1.now = w.now ∧ w1.next = 2 * w.next + 2 := by
+  by_cases hcr : ∃ s, o = .create s
+  · rcases hcr with ⟨s, rfl⟩
+    rcases tx1Create_ok (show tx1Create cfg w s = .ok (w1, chs) from ht) with ⟨hd, hn, hp, hnow, hchs, hnew⟩
+    rw [hd, hn, hchs]
+    refine ⟨inv_create _ _ _ h hms hnew, groupOf_create _ _ _ h, ?_, hp, hnow, rfl⟩
+    intro ch hch
+    rcases List.mem_map.1 hch with ⟨m, _, rfl⟩; rfl
+  · have hnc : ∀ s, o ≠ .create s := fun s he => hcr ⟨s, he⟩
+    rw [tx1_is_update cfg w o hnc] at ht
+    rcases tx1Update_ok ht with ⟨hd, hn, hp, hnow, hchs⟩
+    rw [hd, hn, hchs]
+    refine ⟨inv_push o _ h hc, groupOf_push o _ h, ?_, hp, hnow, rfl⟩
+    intro ch hch
+    rcases List.mem_filterMap.1 hch with ⟨r, _, hc'⟩
+    unfold changeOf at hc'
+    cases hnc' : newContent o w.next r with
+    | none => rw [hnc'] at hc'; cases hc'
+    | some c => rw [hnc'] at hc'; simp only [Option.map_some, Option.some.injEq] at hc'; subst hc'; rfl
+
+/-! ### one operation -/
+
+theorem stepOp_cases (cfg : Cfg) (w : World) (o : Op) (order : List Method) (f : Fault) :
+    (stepOp cfg w o order f).1 = w ∨
+    ∃ w1 chs pub, tx1 cfg w o = .ok (w1, chs) ∧
+      ((stepOp cfg w o order f).1 = { w1 with pub := pub } ∨
+       (stepOp cfg w o order f).1 = tx2 cfg { w1 with pub := pub } chs true ∨
+       (stepOp cfg w o order f).1 = tx2 cfg { w1 with pub := pub } chs false) := by
+  unfold stepOp
+  split
+  · exact Or.inl rfl
+  · exact Or.inl rfl
+  · rename_i w1 chs ht
+    refine Or.inr ⟨w1, chs, (commitLoop f chs order 0 w1.pub).1, ht, ?_⟩
+    split
+    · rename_i pub hcl; rw [hcl]; exact Or.inl rfl
+    · rename_i pub e hcl; rw [hcl]; exact Or.inr (Or.inl rfl)
+    · rename_i pub i hcl
+      rw [hcl]
+      split
+      · split
+        · exact Or.inl rfl
+        · exact Or.inr (Or.inr rfl)
+      · exact Or.inr (Or.inr rfl)
+
+theorem tx2_true_inv {cfg : Cfg} {w1 : World} {chs : List Change} {t : Nat} (hfix : Fixed cfg)
+    (h : Inv w1.dids w1.next) (g : GroupOf (selTx t) chs w1.dids) :
+    Inv (tx2 cfg w1 chs true).dids (tx2 cfg w1 chs true).next := by
+  unfold tx2
+  simp only [if_true]
+  rw [deleteChanges_dids w1 h g]
+  exact inv_dropSel _ hfix h (selTx_uniform h t) g.pending
+
+theorem tx2_false_inv {cfg : Cfg} {w1 : World} {chs : List Change} (h : Inv w1.dids w1.next) :
+    Inv (tx2 cfg w1 chs false).dids (tx2 cfg w1 chs false).next := by
+  unfold tx2
+  simp only [Bool.false_eq_true, if_false]
+  cases chs with
+  | nil => exact h
+  | cons ch _ => exact inv_clear ch.tx h
+
+theorem stepOp_inv {cfg : Cfg} {w : World} (o : Op) (order : List Method) (f : Fault) (hfix : Fixed cfg)
+    (hms : cfg.methods.Nodup) (h : Inv w.dids w.next) (hc : Clean w.dids o.subject) :
+    Inv (stepOp cfg w o order f).1.dids (stepOp cfg w o order f).1.next := by
+  rcases stepOp_cases cfg w o order f with he | ⟨w1, chs, pub, ht, he | he | he⟩ <;> rw [he]
+  · exact h
+  · exact (tx1_ok hms h hc ht).1
+  · have := tx1_ok hms h hc ht
+    exact tx2_true_inv (w1 := { w1 with pub := pub }) hfix this.1 this.2.1
+  · have := tx1_ok hms h hc ht
+    exact tx2_false_inv (w1 := { w1 with pub := pub }) this.1
+
+/-! ### the sweep, one transaction at a time -/
+
+def isOld (cfg : Cfg) (now : Nat) (v : Ver) : Bool := decide (v.ts + cfg.threshold < now)
+
+def selOld (cfg : Cfg) (now t : Nat) (r : DidRow) : Bool :=
+  match r.vers with
+  | v :: _ => (match v.pending with | some p => p.tx == t | none => false) && isOld cfg now v
+  | [] => false
+
+theorem selOld_of_sig {cfg : Cfg} {now t : Nat} {r r2 : DidRow} (h : sig r = sig r2) :
+    selOld cfg now t r = selOld cfg now t r2 := by
+  unfold selOld
+  unfold sig at h
+  cases h1 : r.vers <;> cases h2 : r2.vers <;> rw [h1, h2] at h <;> simp at h ⊢
+  simp only [isOld, h.1.2.1, h.1.2.2.2]
+
+theorem selOld_true {cfg : Cfg} {now t : Nat} {r : DidRow} (h : selOld cfg now t r = true) :
+    ∃ v vs p, r.vers = v :: vs ∧ v.pending = some p ∧ p.tx = t ∧ isOld cfg now v = true := by
+  unfold selOld at h
+  cases hv : r.vers with
+  | nil => rw [hv] at h; cases h
+  | cons v vs =>
+    rw [hv] at h
+    simp only [Bool.and_eq_true] at h
+    cases hp : v.pending with
+    | none => rw [hp] at h; cases h.1
+    | some p =>
+      rw [hp] at h
+      exact ⟨v, vs, p, rfl, hp, by simpa using h.1, h.2⟩
+
+theorem selOld_intro {cfg : Cfg} {now t : Nat} {r : DidRow} {v : Ver} {vs : List Ver} {p : Pending}
+    (hv : r.vers = v :: vs) (hp : v.pending = some p) (ht : p.tx = t) (ho : isOld cfg now v = true) :
+    selOld cfg now t r = true := by
+  unfold selOld
+  rw [hv]
+  simp [hp, ht, ho]
+
+structure Compat (cfg : Cfg) (now : Nat) (old : List Change) (ts : List Nat) (dids : List DidRow) : Prop where
+  sound : ∀ ch ∈ old, ch.tx ∈ ts → ∃ r ∈ dids, ch.did = r.id ∧ ∃ v vs p, r.vers = v :: vs ∧ v.pending = some p ∧
+    ch.row = v.row ∧ ch.typ = p.typ ∧ p.tx = ch.tx ∧ isOld cfg now v = true
+  complete : ∀ r ∈ dids, ∀ v vs p, r.vers = v :: vs → v.pending = some p → p.tx ∈ ts → isOld cfg now v = true →
+    ∃ ch ∈ old, ch.did = r.id ∧ ch.row = v.row ∧ ch.typ = p.typ ∧ ch.tx = p.tx
+  pend : ∀ r ∈ dids, ∀ v ∈ r.vers, ∀ p, v.pending = some p → isOld cfg now v = true → p.tx ∈ ts
+
+theorem isOld_clearTx (cfg : Cfg) (now t : Nat) (v : Ver) : isOld cfg now (clearTx t v) = isOld cfg now v := by
+  unfold isOld; rw [clearTx_ts]
+
+theorem groupOf_old {cfg : Cfg} {now t : Nat} {old : List Change} {ts : List Nat} {dids : List DidRow}
+    (hc : Compat cfg now old (t :: ts) dids) :
+    GroupOf (selOld cfg now t) (old.filter (fun ch => ch.tx = t)) dids := by
+  constructor
+  · intro ch hch
+    rcases List.mem_filter.1 hch with ⟨hold, htx⟩
+    have htx : ch.tx = t := by simpa using htx
+    rcases hc.sound ch hold (by rw [htx]; exact List.mem_cons_self ..) with ⟨r, hr, hid, v, vs, p, hv, hp, hrow, htyp, hptx, ho⟩
+    exact ⟨r, hr, selOld_intro hv hp (by rw [hptx, htx]) ho, hid, v, vs, p, hv, hp, hrow, htyp⟩
+  · intro r hr hs
+    rcases selOld_true hs with ⟨v, vs, p, hv, hp, hptx, ho⟩
+    rcases hc.complete r hr v vs p hv hp (by rw [hptx]; exact List.mem_cons_self ..) ho with ⟨ch, hch, hid, hrow, htyp, htx⟩
+    exact ⟨ch, List.mem_filter.2 ⟨hch, by simp [htx, hptx]⟩, hid, v, vs, p, hv, hp, hrow, htyp⟩
+
+/-- the rows after the deletion part of one sweep step -/
+def sweepRows (cfg : Cfg) (now t : Nat) (b : Bool) (dids : List DidRow) : List DidRow :=
+  if b = true then dids else dids.filterMap (dropSel cfg (selOld cfg now t))
+
+theorem sweepRows_from {cfg : Cfg} {now t : Nat} {b : Bool} {dids : List DidRow} :
+    ∀ r0 ∈ sweepRows cfg now t b dids, ∃ r ∈ dids, r0 = r ∨ ∃ v vs, r.vers = v :: vs ∧ r0 = { r with vers := vs } := by
+  intro r0 hr0
+  unfold sweepRows at hr0
+  split at hr0
+  · exact ⟨r0, hr0, Or.inl rfl⟩
+  · rcases List.mem_filterMap.1 hr0 with ⟨r, hr, hF⟩
+    refine ⟨r, hr, ?_⟩
+    unfold dropSel at hF
+    split at hF
+    · unfold dropHead at hF
+      split at hF
+      · rename_i v vs hv
+        split at hF
+        · cases hF
+        · cases hF; exact Or.inr ⟨v, vs, hv, rfl⟩
+      · cases hF; exact Or.inl rfl
+    · cases hF; exact Or.inl rfl
+
+theorem sweepRows_keeps {cfg : Cfg} {now t : Nat} {b : Bool} {dids : List DidRow} :
+    ∀ r ∈ dids, selOld cfg now t r = false → r ∈ sweepRows cfg now t b dids := by
+  intro r hr hs
+  unfold sweepRows
+  split
+  · exact hr
+  · exact List.mem_filterMap.2 ⟨r, hr, by simp [dropSel, hs]⟩
+
+theorem sweepApply_dids {cfg : Cfg} {now t : Nat} {old : List Change} {ts : List Nat} (w : World) (b : Bool)
+    (h : Inv w.dids w.next) (hc : Compat cfg now old (t :: ts) w.dids) :
+    (sweepApply cfg w (old.filter (fun ch => ch.tx = t)) t b).dids = (sweepRows cfg now t b w.dids).map (clearRow t) := by
+  unfold sweepApply sweepRows
+  cases b with
+  | true => simp [deleteLogTx_dids]
+  | false =>
+    simp only [Bool.false_eq_true, if_false, deleteLogTx_dids]
+    rw [deleteChanges_dids w h (groupOf_old hc)]
+
+theorem sweepApply_spec {cfg : Cfg} {now t : Nat} {old : List Change} {ts : List Nat} (w : World) (b : Bool)
+    (hfix : Fixed cfg) (h : Inv w.dids w.next) (hc : Compat cfg now old (t :: ts) w.dids) (hnt : t ∉ ts) :
+    Inv ((sweepRows cfg now t b w.dids).map (clearRow t)) w.next ∧
+    Compat cfg now old ts ((sweepRows cfg now t b w.dids).map (clearRow t)) := by
+  constructor
+  · apply inv_clear
+    unfold sweepRows
+    split
+    · exact h
+    · exact inv_dropSel _ hfix h (fun r hr r2 hr2 hs => selOld_of_sig (h.uniform r hr r2 hr2 hs)) (groupOf_old hc).pending
+  · have neT : ∀ x ∈ ts, x ≠ t := fun x hx he => hnt (he ▸ hx)
+    constructor
+    · intro ch hch htx
+      rcases hc.sound ch hch (List.mem_cons_of_mem _ htx) with ⟨r, hr, hid, v, vs, p, hv, hp, hrow, htyp, hptx, ho⟩
+      have hne : p.tx ≠ t := by rw [hptx]; exact neT _ htx
+      have hsel : selOld cfg now t r = false := by
+        cases hs : selOld cfg now t r with
+        | false => rfl
+        | true =>
+          rcases selOld_true hs with ⟨v2, vs2, p2, hv2, hp2, hptx2, _⟩
+          rw [hv] at hv2; simp only [List.cons.injEq] at hv2
+          rcases hv2 with ⟨rfl, rfl⟩
+          rw [hp] at hp2; cases hp2
+          exact absurd hptx2 hne
+      refine ⟨clearRow t r, List.mem_map.2 ⟨r, sweepRows_keeps r hr hsel, rfl⟩, hid, clearTx t v, vs.map (clearTx t), p, ?_, ?_, ?_, htyp, hptx, ?_⟩
+      · simp [clearRow, hv]
+      · rw [clearTx_pending, hp]; simp [clearP, hne]
+      · rw [clearTx_row]; exact hrow
+      · rw [isOld_clearTx]; exact ho
+    · intro r' hr' v' vs' p hv' hp' hptx ho'
+      rcases List.mem_map.1 hr' with ⟨r0, hr0, rfl⟩
+      simp only [clearRow] at hv'
+      cases hv0 : r0.vers with
+      | nil => rw [hv0] at hv'; cases hv'
+      | cons v0 vs0 =>
+        rw [hv0] at hv'
+        simp only [List.map_cons, List.cons.injEq] at hv'
+        rcases hv' with ⟨rfl, rfl⟩
+        rw [clearTx_pending] at hp'
+        have hp0 := (clearP_some hp').1
+        rw [isOld_clearTx] at ho'
+        rcases sweepRows_from r0 hr0 with ⟨r, hr, rfl | ⟨v, vs, hv, rfl⟩⟩
+        · rcases hc.complete r0 hr v0 vs0 p hv0 hp0 (List.mem_cons_of_mem _ hptx) ho' with ⟨ch, hch, hid, hrow, htyp, htx⟩
+          exact ⟨ch, hch, hid, by rw [clearTx_row]; exact hrow, htyp, htx⟩
+        · simp only at hv0
+          have : v0.pending = none := h.topOnly r hr v0 (by rw [hv, hv0]; exact List.mem_cons_self ..)
+          rw [this] at hp0; cases hp0
+    · intro r' hr' v' hv' p hp' ho'
+      rcases List.mem_map.1 hr' with ⟨r0, hr0, rfl⟩
+      rcases List.mem_map.1 hv' with ⟨v0, hv0, rfl⟩
+      rw [clearTx_pending] at hp'
+      have hp0 := clearP_some hp'
+      rw [isOld_clearTx] at ho'
+      have hmem : ∃ r ∈ w.dids, v0 ∈ r.vers := by
+        rcases sweepRows_from r0 hr0 with ⟨r, hr, rfl | ⟨v, vs, hv, rfl⟩⟩
+        · exact ⟨r0, hr, hv0⟩
+        · exact ⟨r, hr, by rw [hv]; exact List.mem_cons_of_mem _ hv0⟩
+      rcases hmem with ⟨r, hr, hvr⟩
+      rcases List.mem_cons.1 (hc.pend r hr v0 hvr p hp0.1 ho') with he | hin
+      · exact absurd he hp0.2
+      · exact hin
+
+/-! ### the whole sweep -/
+
+theorem nodup_eraseDups_aux : ∀ (n : Nat) (l : List Nat), l.length ≤ n → l.eraseDups.Nodup
+  | 0, l, h => by
+    have : l = [] := List.eq_nil_of_length_eq_zero (by omega)
+    subst this; simp
+  | n + 1, [], _ => by simp
+  | n + 1, a :: as, h => by
+    rw [List.eraseDups_cons, List.nodup_cons]
+    constructor
+    · intro hm
+      have := List.mem_eraseDups.1 hm
+      simp at this
+    · apply nodup_eraseDups_aux n
+      have := List.length_filter_le (fun b => !b == a) as
+      simp only [List.length_cons] at h
+      omega
+
+theorem nodup_eraseDups (l : List Nat) : l.eraseDups.Nodup := nodup_eraseDups_aux l.length l (Nat.le_refl _)
+
+theorem isCommitted_ok {cfg : Cfg} (hfix : cfg.notFoundIsUncommitted = true) (pub : Nat → List Content) (ch : Change) :
+    ∃ b, isCommitted cfg pub ch = .ok b := by
+  unfold isCommitted
+  split
+  · exact ⟨true, rfl⟩
+  · split
+    · rw [if_pos hfix]; exact ⟨false, rfl⟩
+    · exact ⟨_, rfl⟩
+
+theorem committedLoop_ok {cfg : Cfg} (hfix : cfg.notFoundIsUncommitted = true) (pub : Nat → List Content) :
+    ∀ group : List Change, ∃ b, committedLoop cfg pub group = .ok b
+  | [] => ⟨true, rfl⟩
+  | ch :: chs => by
+    rcases isCommitted_ok hfix pub ch with ⟨b, hb⟩
+    unfold committedLoop
+    rw [hb]
+    cases b with
+    | true => exact committedLoop_ok hfix pub chs
+    | false => exact ⟨false, rfl⟩
+
+theorem committedLoop_true {cfg : Cfg} (pub : Nat → List Content) :
+    ∀ group : List Change, committedLoop cfg pub group = .ok true → ∀ ch ∈ group, isCommitted cfg pub ch = .ok true
+  | [], _, ch, hch => by cases hch
+  | c :: cs, h, ch, hch => by
+    unfold committedLoop at h
+    split at h
+    · rename_i hc
+      rcases List.mem_cons.1 hch with rfl | hin
+      · exact hc
+      · exact committedLoop_true pub cs h ch hin
+    · rename_i hne
+      exact absurd h (hne)
+
+/-- a version without a change record is still there -/
+def Keeps (dids dids' : List DidRow) : Prop :=
+  ∀ r ∈ dids, ∀ v ∈ r.vers, v.pending = none → ∃ r' ∈ dids', r'.id = r.id ∧ v ∈ r'.vers
+
+theorem Keeps.refl (dids : List DidRow) : Keeps dids dids := fun r hr v hv _ => ⟨r, hr, rfl, hv⟩
+
+theorem Keeps.trans {a b c : List DidRow} (h1 : Keeps a b) (h2 : Keeps b c) : Keeps a c := by
+  intro r hr v hv hp
+  rcases h1 r hr v hv hp with ⟨r', hr', hid, hv'⟩
+  rcases h2 r' hr' v hv' hp with ⟨r'', hr'', hid', hv''⟩
+  exact ⟨r'', hr'', by rw [hid', hid], hv''⟩
+
+theorem clearTx_of_none {t : Nat} {v : Ver} (h : v.pending = none) : clearTx t v = v := by
+  unfold clearTx; rw [h]
+
+theorem keeps_clear (t : Nat) (dids : List DidRow) : Keeps dids (dids.map (clearRow t)) := by
+  intro r hr v hv hp
+  refine ⟨clearRow t r, List.mem_map.2 ⟨r, hr, rfl⟩, rfl, ?_⟩
+  exact List.mem_map.2 ⟨v, hv, clearTx_of_none hp⟩
+
+theorem keeps_dropSel {cfg : Cfg} {dids : List DidRow} {n : Nat} (sel : DidRow → Bool) (h : Inv dids n)
+    (hpend : ∀ r ∈ dids, sel r = true → ∃ v vs p, r.vers = v :: vs ∧ v.pending = some p) :
+    Keeps dids (dids.filterMap (dropSel cfg sel)) := by
+  intro r hr v hv hp
+  by_cases hs : sel r = true
+  · rcases hpend r hr hs with ⟨v0, vs, p, hv0, hp0⟩
+    have hvs : v ∈ vs := by
+      rw [hv0] at hv
+      rcases List.mem_cons.1 hv with rfl | hin
+      · rw [hp] at hp0; cases hp0
+      · exact hin
+    have hne : vs ≠ [] := by intro he; rw [he] at hvs; cases hvs
+    have hnc : p.typ ≠ .created := fun hc => hne ((h.createdIff r hr v0 vs p hv0 hp0).1 hc)
+    refine ⟨{ r with vers := vs }, List.mem_filterMap.2 ⟨r, hr, ?_⟩, rfl, hvs⟩
+    unfold dropSel dropHead
+    rw [if_pos hs, hv0]
+    simp only [hp0, Option.map_some, Option.some.injEq]
+    rw [if_neg (fun hh => hnc hh.2)]
+  · exact ⟨r, List.mem_filterMap.2 ⟨r, hr, by simp [dropSel, hs]⟩, rfl, hv⟩
+
+def strip (v : Ver) : Ver := { v with pending := none }
+
+theorem strip_clearTx (t : Nat) (v : Ver) : strip (clearTx t v) = strip v := by
+  unfold clearTx strip
+  split
+  · split <;> rfl
+  · rfl
+
+/-- every row afterwards is a row from before that lost some of its newest versions (and change records);
+    a change record afterwards was there before -/
+def Fate (dids dids' : List DidRow) : Prop :=
+  ∀ r' ∈ dids', ∃ r ∈ dids, r'.id = r.id ∧ (∃ k, r'.vers.map strip = (r.vers.drop k).map strip) ∧
+    ∀ v' ∈ r'.vers, ∀ p, v'.pending = some p → ∃ v ∈ r.vers, v.pending = some p ∧ v.ts = v'.ts
+
+theorem Fate.refl (dids : List DidRow) : Fate dids dids :=
+  fun r hr => ⟨r, hr, rfl, ⟨0, by simp⟩, fun v hv p hp => ⟨v, hv, hp, rfl⟩⟩
+
+theorem Fate.trans {a b c : List DidRow} (h1 : Fate a b) (h2 : Fate b c) : Fate a c := by
+  intro r'' hr''
+  rcases h2 r'' hr'' with ⟨r', hr', hid2, ⟨k2, hk2⟩, hp2⟩
+  rcases h1 r' hr' with ⟨r, hr, hid1, ⟨k1, hk1⟩, hp1⟩
+  refine ⟨r, hr, by rw [hid2, hid1], ⟨k1 + k2, ?_⟩, ?_⟩
+  · rw [hk2, List.map_drop, hk1, ← List.map_drop, List.drop_drop]
+  · intro v'' hv'' p hp
+    rcases hp2 v'' hv'' p hp with ⟨v', hv', hpv', hts'⟩
+    rcases hp1 v' hv' p hpv' with ⟨v, hv, hpv, hts⟩
+    exact ⟨v, hv, hpv, by rw [hts, hts']⟩
+
+theorem fate_clear (t : Nat) (dids : List DidRow) : Fate dids (dids.map (clearRow t)) := by
+  intro r' hr'
+  rcases List.mem_map.1 hr' with ⟨r, hr, rfl⟩
+  refine ⟨r, hr, rfl, ⟨0, ?_⟩, ?_⟩
+  · simp only [clearRow, List.map_map, List.drop_zero]
+    apply List.map_congr_left
+    intro v _
+    exact strip_clearTx t v
+  · intro v' hv' p hp
+    rcases List.mem_map.1 hv' with ⟨v, hv, rfl⟩
+    rw [clearTx_pending] at hp
+    exact ⟨v, hv, (clearP_some hp).1, (clearTx_ts t v).symm⟩
+
+theorem fate_sweepRows (cfg : Cfg) (now t : Nat) (b : Bool) (dids : List DidRow) : Fate dids (sweepRows cfg now t b dids) := by
+  intro r0 hr0
+  rcases sweepRows_from r0 hr0 with ⟨r, hr, rfl | ⟨v, vs, hv, rfl⟩⟩
+  · exact ⟨r0, hr, rfl, ⟨0, by simp⟩, fun v hv p hp => ⟨v, hv, hp, rfl⟩⟩
+  · refine ⟨r, hr, rfl, ⟨1, by simp [hv]⟩, ?_⟩
+    intro u hu p hp
+    exact ⟨u, by rw [hv]; exact List.mem_cons_of_mem _ hu, hp, rfl⟩
+
+theorem sweepApply_fields (cfg : Cfg) (w : World) (group : List Change) (t : Nat) (b : Bool) :
+    (sweepApply cfg w group t b).next = w.next ∧ (sweepApply cfg w group t b).pub = w.pub ∧
+    (sweepApply cfg w group t b).now = w.now := by
+  cases b <;> exact ⟨rfl, rfl, rfl⟩
+
+theorem sweepTxs_spec {cfg : Cfg} (hfix : Fixed cfg) (now : Nat) (old : List Change) :
+    ∀ (ts : List Nat) (w : World), ts.Nodup → Inv w.dids w.next → Compat cfg now old ts w.dids →
+      ∃ w', sweepTxs cfg old ts w = .ok w' ∧ Inv w'.dids w'.next ∧ Compat cfg now old [] w'.dids ∧
+        w'.next = w.next ∧ w'.pub = w.pub ∧ w'.now = w.now ∧ Keeps w.dids w'.dids ∧ Fate w.dids w'.dids
+  | [], w, _, h, hc => ⟨w, rfl, h, hc, rfl, rfl, rfl, Keeps.refl _, Fate.refl _⟩
+  | t :: ts, w, hnd, h, hc => by
+    rw [List.nodup_cons] at hnd
+    unfold sweepTxs
+    simp only
+    rcases committedLoop_ok hfix.notFound w.pub (old.filter (fun ch => ch.tx = t)) with ⟨b, hb⟩
+    rw [hb]
+    simp only
+    have hd := sweepApply_dids w b h hc
+    have hf := sweepApply_fields cfg w (old.filter (fun ch => ch.tx = t)) t b
+    have hs := sweepApply_spec w b hfix h hc hnd.1
+    rw [← hd, ← hf.1] at hs
+    rcases sweepTxs_spec hfix now old ts _ hnd.2 hs.1 hs.2 with ⟨w', hw', hi, hcc, hn, hp, hnow, hk, hfate⟩
+    refine ⟨w', hw', hi, hcc, by rw [hn, hf.1], by rw [hp, hf.2.1], by rw [hnow, hf.2.2], ?_, ?_⟩
+    · refine Keeps.trans ?_ hk
+      rw [hd]
+      refine Keeps.trans ?_ (keeps_clear t _)
+      unfold sweepRows
+      split
+      · exact Keeps.refl _
+      · exact keeps_dropSel _ h (groupOf_old hc).pending
+    · refine Fate.trans ?_ hfate
+      rw [hd]
+      exact Fate.trans (fate_sweepRows cfg now t b w.dids) (fate_clear t _)
+
+theorem compat_init {cfg : Cfg} {w : World} (h : Inv w.dids w.next) (ts : List Nat)
+    (hts : ∀ ch ∈ oldChanges cfg w, ch.tx ∈ ts) : Compat cfg w.now (oldChanges cfg w) ts w.dids := by
+  have memOld : ∀ ch, ch ∈ oldChanges cfg w ↔ ∃ r ∈ w.dids, ∃ v ∈ r.vers, ∃ p, v.pending = some p ∧ isOld cfg w.now v = true ∧
+      ch = { did := r.id, method := r.method, row := v.row, typ := p.typ, tx := p.tx, ts := v.ts, c := v.c } := by
+    intro ch
+    unfold oldChanges changesOf
+    simp only [List.mem_flatMap, List.mem_filterMap]
+    constructor
+    · rintro ⟨r, hr, v, hv, hm⟩
+      cases hp : v.pending with
+      | none => rw [hp] at hm; cases hm
+      | some p =>
+        rw [hp] at hm
+        simp only at hm
+        split at hm
+        · rename_i ho
+          cases hm
+          exact ⟨r, hr, v, hv, p, hp, by simp [isOld, ho], rfl⟩
+        · cases hm
+    · rintro ⟨r, hr, v, hv, p, hp, ho, rfl⟩
+      refine ⟨r, hr, v, hv, ?_⟩
+      rw [hp]
+      simp only [isOld, decide_eq_true_eq] at ho
+      simp [ho]
+  have headOf : ∀ r ∈ w.dids, ∀ v ∈ r.vers, ∀ p, v.pending = some p → ∃ vs, r.vers = v :: vs := by
+    intro r hr v hv p hp
+    cases hvs : r.vers with
+    | nil => rw [hvs] at hv; cases hv
+    | cons u us =>
+      rw [hvs] at hv
+      rcases List.mem_cons.1 hv with rfl | hin
+      · exact ⟨us, rfl⟩
+      · have := h.topOnly r hr v (by rw [hvs]; exact hin)
+        rw [this] at hp; cases hp
+  constructor
+  · intro ch hch _
+    rcases (memOld ch).1 hch with ⟨r, hr, v, hv, p, hp, ho, rfl⟩
+    rcases headOf r hr v hv p hp with ⟨vs, hvs⟩
+    exact ⟨r, hr, rfl, v, vs, p, hvs, hp, rfl, rfl, rfl, ho⟩
+  · intro r hr v vs p hv hp _ ho
+    refine ⟨_, (memOld _).2 ⟨r, hr, v, by rw [hv]; exact List.mem_cons_self .., p, hp, ho, rfl⟩, rfl, rfl, rfl, rfl⟩
+  · intro r hr v hv p hp ho
+    exact hts _ ((memOld _).2 ⟨r, hr, v, hv, p, hp, ho, rfl⟩)
+
+theorem sweep_spec {cfg : Cfg} {w : World} (ord : List Nat → List Nat) (hfix : Fixed cfg)
+    (hord : ∀ l, (ord l).Perm l) (h : Inv w.dids w.next) :
+    (sweep cfg ord w).2 = "ok" ∧ Inv (sweep cfg ord w).1.dids (sweep cfg ord w).1.next ∧
+    (sweep cfg ord w).1.next = w.next ∧ (sweep cfg ord w).1.pub = w.pub ∧ (sweep cfg ord w).1.now = w.now ∧
+    Keeps w.dids (sweep cfg ord w).1.dids ∧ Fate w.dids (sweep cfg ord w).1.dids ∧
+    (∀ r ∈ (sweep cfg ord w).1.dids, ∀ v ∈ r.vers, ∀ p, v.pending = some p → isOld cfg w.now v = false) := by
+  have hperm := hord ((oldChanges cfg w).map (·.tx)).eraseDups
+  have hnd : (ord ((oldChanges cfg w).map (·.tx)).eraseDups).Nodup := hperm.nodup_iff.2 (nodup_eraseDups _)
+  have hts : ∀ ch ∈ oldChanges cfg w, ch.tx ∈ ord ((oldChanges cfg w).map (·.tx)).eraseDups := by
+    intro ch hch
+    exact hperm.mem_iff.2 (List.mem_eraseDups.2 (List.mem_map.2 ⟨ch, hch, rfl⟩))
+  rcases sweepTxs_spec hfix w.now (oldChanges cfg w) _ w hnd h (compat_init h _ hts) with ⟨w', hw', hi, hcc, hn, hp, hnow, hk, hfate⟩
+  unfold sweep
+  simp only [hw']
+  refine ⟨trivial, hi, hn, hp, hnow, hk, hfate, ?_⟩
+  intro r hr v hv p hpv
+  cases ho : isOld cfg w.now v with
+  | false => rfl
+  | true => exact absurd (hcc.pend r hr v hv p hpv ho) (by simp)
+
+/-! ### reachable worlds -/
+
+/-- Worlds reachable by operations (any fault, any commit order) that start on a subject without change records,
+    clock ticks and sweeps (any transaction order). -/
+inductive Reach (cfg : Cfg) : World → Prop
+  | init : Reach cfg {}
+  | op {w : World} (o : Op) (order : List Method) (f : Fault) :
+      Reach cfg w → Clean w.dids o.subject → Reach cfg (stepOp cfg w o order f).1
+  | tick {w : World} (d : Nat) : Reach cfg w → Reach cfg (tick d w)
+  | sweep {w : World} (ord : List Nat → List Nat) :
+      Reach cfg w → (∀ l, (ord l).Perm l) → Reach cfg (sweep cfg ord w).1
+
+theorem reach_inv {cfg : Cfg} (hfix : Fixed cfg) (hms : cfg.methods.Nodup) {w : World} (h : Reach cfg w) :
+    Inv w.dids w.next := by
+  induction h with
+  | init => exact inv_nil 0
+  | op o order f _ hc ih => exact stepOp_inv o order f hfix hms ih hc
+  | tick d _ ih => exact ih
+  | sweep ord _ hord ih => exact (sweep_spec ord hfix hord ih).2.1
+
+/-! ### versions without change record survive every step; a failed commit restores the rows -/
+
+theorem filterMap_eq_self {α} (g : α → Option α) : ∀ l : List α, (∀ a ∈ l, g a = some a) → l.filterMap g = l
+  | [], _ => rfl
+  | x :: xs, h => by
+    rw [List.filterMap_cons, h x (List.mem_cons_self ..)]
+    simp only
+    rw [filterMap_eq_self g xs (fun a ha => h a (List.mem_cons_of_mem _ ha))]
+
+theorem filterMap_eq_nil' {α β} (g : α → Option β) : ∀ l : List α, (∀ a ∈ l, g a = none) → l.filterMap g = []
+  | [], _ => rfl
+  | x :: xs, h => by
+    rw [List.filterMap_cons, h x (List.mem_cons_self ..)]
+    exact filterMap_eq_nil' g xs (fun a ha => h a (List.mem_cons_of_mem _ ha))
+
+theorem selTx_old_false {dids n} (h : Inv dids n) (r : DidRow) (hr : r ∈ dids) : selTx n r = false := by
+  cases hs : selTx n r with
+  | false => rfl
+  | true =>
+    simp only [selTx, beq_iff_eq] at hs
+    exact absurd (headTx_lt h r hr n hs) (Nat.lt_irrefl _)
+
+theorem restore_push {cfg : Cfg} {dids : List DidRow} {n : Nat} (o : Op) (now : Nat) (h : Inv dids n) :
+    (dids.map (pushRow o n now)).filterMap (dropSel cfg (selTx n)) = dids := by
+  rw [List.filterMap_map]
+  apply filterMap_eq_self
+  intro r hr
+  simp only [Function.comp]
+  rcases pushRow_cases o n now r with he | ⟨_, hct, c, he⟩ <;> rw [he]
+  · simp [dropSel, selTx_old_false h r hr]
+  · simp [dropSel, dropHead, selTx, headTx, hct]
+
+theorem restore_create {cfg : Cfg} {dids : List DidRow} {n : Nat} (ms : List Method) (now : Nat) (s : String)
+    (hfix : Fixed cfg) (h : Inv dids n) :
+    (dids ++ ms.map (newDid n now s)).filterMap (dropSel cfg (selTx n)) = dids := by
+  rw [List.filterMap_append, filterMap_eq_self _ dids, filterMap_eq_nil', List.append_nil]
+  · intro r hr
+    rcases List.mem_map.1 hr with ⟨m, _, rfl⟩
+    simp [dropSel, dropHead, selTx, headTx, newDid, hfix.delDid]
+  · intro r hr
+    simp [dropSel, selTx_old_false h r hr]
+
+theorem tx1_restore {cfg : Cfg} {w w1 : World} {o : Op} {chs : List Change} (hfix : Fixed cfg)
+    (h : Inv w.dids w.next) (ht : tx1 cfg w o = .ok (w1, chs)) :
+    w1.dids.filterMap (dropSel cfg (selTx w.next)) = w.dids := by
+  by_cases hcr : ∃ s, o = .create s
+  · rcases hcr with ⟨s, rfl⟩
+    rcases tx1Create_ok (show tx1Create cfg w s = .ok (w1, chs) from ht) with ⟨hd, _⟩
+    rw [hd]; exact restore_create _ _ _ hfix h
+  · have hnc : ∀ s, o ≠ .create s := fun s he => hcr ⟨s, he⟩
+    rw [tx1_is_update cfg w o hnc] at ht
+    rcases tx1Update_ok ht with ⟨hd, _⟩
+    rw [hd]; exact restore_push o _ h
+
+theorem keeps_tx1 {cfg : Cfg} {w w1 : World} {o : Op} {chs : List Change} (ht : tx1 cfg w o = .ok (w1, chs)) :
+    Keeps w.dids w1.dids := by
+  by_cases hcr : ∃ s, o = .create s
+  · rcases hcr with ⟨s, rfl⟩
+    rcases tx1Create_ok (show tx1Create cfg w s = .ok (w1, chs) from ht) with ⟨hd, _⟩
+    rw [hd]
+    exact fun r hr v hv _ => ⟨r, List.mem_append_left _ hr, rfl, hv⟩
+  · have hnc : ∀ s, o ≠ .create s := fun s he => hcr ⟨s, he⟩
+    rw [tx1_is_update cfg w o hnc] at ht
+    rcases tx1Update_ok ht with ⟨hd, _⟩
+    rw [hd]
+    intro r hr v hv _
+    refine ⟨pushRow o w.next w.now r, List.mem_map.2 ⟨r, hr, rfl⟩, ?_, ?_⟩
+    · rcases pushRow_cases o w.next w.now r with he | ⟨_, _, c, he⟩ <;> rw [he]
+    · rcases pushRow_cases o w.next w.now r with he | ⟨_, _, c, he⟩ <;> rw [he]
+      · exact hv
+      · exact List.mem_cons_of_mem _ hv
+
+theorem stepOp_keeps {cfg : Cfg} {w : World} (o : Op) (order : List Method) (f : Fault) (hfix : Fixed cfg)
+    (hms : cfg.methods.Nodup) (h : Inv w.dids w.next) (hc : Clean w.dids o.subject) :
+    Keeps w.dids (stepOp cfg w o order f).1.dids := by
+  rcases stepOp_cases cfg w o order f with he | ⟨w1, chs, pub, ht, he | he | he⟩ <;> rw [he]
+  · exact Keeps.refl _
+  · exact (keeps_tx1 ht : Keeps w.dids w1.dids)
+  · have := tx1_ok hms h hc ht
+    refine Keeps.trans (keeps_tx1 ht) ?_
+    unfold tx2
+    simp only [if_true]
+    rw [deleteChanges_dids (w := { w1 with pub := pub }) this.1 this.2.1]
+    exact keeps_dropSel _ this.1 this.2.1.pending
+  · refine Keeps.trans (keeps_tx1 ht) ?_
+    unfold tx2
+    simp only [Bool.false_eq_true, if_false]
+    cases chs with
+    | nil => exact Keeps.refl _
+    | cons ch _ => exact keeps_clear ch.tx _
+
+theorem logCount_zero (w : World) (h : ∀ r ∈ w.dids, ∀ v ∈ r.vers, v.pending = none) : logCount w = 0 := by
+  unfold logCount
+  have : ∀ l : List DidRow, (∀ r ∈ l, ∀ v ∈ r.vers, v.pending = none) →
+      (l.map (fun r => (r.vers.filter (fun v => v.pending.isSome)).length)).sum = 0 := by
+    intro l
+    induction l with
+    | nil => intro _; rfl
+    | cons x xs ih =>
+      intro hx
+      rw [List.map_cons, List.sum_cons, ih (fun r hr => hx r (List.mem_cons_of_mem _ hr))]
+      have : x.vers.filter (fun v => v.pending.isSome) = [] := by
+        apply List.filter_eq_nil_iff.2
+        intro v hv
+        rw [hx x (List.mem_cons_self ..) v hv]; simp
+      rw [this]; rfl
+  exact this w.dids h
+
+theorem consec_range : ∀ vs : List Ver, Consec vs → vs.map (·.n) = (List.range vs.length).reverse
+  | [], _ => rfl
+  | v :: vs, h => by
+    rw [List.map_cons, consec_range vs h.2, h.1, List.length_cons, List.range_succ, List.reverse_append]
+    rfl
+
 end Nuts.C13
